@@ -564,6 +564,25 @@ def run(tier, seed):
             R.violation(sig, f'returned proof has the wrong conclusion or fails to run: {a} (input {f})',
                         {'input': 'Q ' + f, 'got': a})
     R.hist['proofs_executed'] = n_pf
+    # proof layer per stage on larger well-shaped ConjForm trees (long clause lists exercise the
+    # and/or-assoc shifting of to_clauses and the distribution steps of to_cnf)
+    rngs = C.rng_for(seed, CID + ':stageproofs')
+    qs = []
+    for _ in range(40 if tier == 'quick' else 500):
+        qs.append('QS N ' + rand_cf(rngs, rngs.randrange(1, 5), 'or'))
+        qs.append('QS C ' + rand_cf(rngs, rngs.randrange(1, 4), 'nnf'))
+        qs.append('QS L ' + rand_cf(rngs, rngs.randrange(2, 6), 'cnf'))
+    qans = run_impl(qs, timeout_case=40)
+    for q, a in zip(qs, qans):
+        if a is None or a.startswith('TIMEOUT') or a.startswith('<missing>'):
+            R.hist['proof_timeouts'] = R.hist.get('proof_timeouts', 0) + 1
+            continue
+        R.case(q, True, 'stageproofs' + q[3])
+        if a.startswith('ERR RecursionError'):
+            R.violation('prove_tautology/RecursionError', f'implementation raises RecursionError (input {q})', {'input': q, 'got': a})
+        elif a != 'OK':
+            R.violation(f'proof-layer/stage-{q[3]}', f'stage proof has the wrong conclusion or fails: {a} (input {q})',
+                        {'input': q, 'got': a})
     R.hist['oracle_cases'] = n_oracle
 
     # bigger oracle budget when something broke
